@@ -31,7 +31,3 @@ func ModelValues(output string, inputs []NamedTerm, pr *Program) [][2]string {
 	return out
 }
 
-// tryReplay is filled in by replay.go for functions with a replay template.
-func tryReplay(cfg RunConfig, pr *Program, o *Obligation, vals [][2]string, sb *strings.Builder) (string, bool) {
-	return "", false
-}
